@@ -115,7 +115,26 @@ func (w *World) setOverride(r *rand.Rand, node, ns, eds string) {
 func (w *World) overridesAction(r *rand.Rand, ns, eds string) {
 	nodes := w.SortedNodeNames()
 	sets := w.settingsOf(ns)
-	switch r.Intn(8) {
+	switch r.Intn(9) {
+	case 8:
+		// the user deletes a setting and re-creates it at once under the same name with other resources (a new
+		// object: new uid, generation 1 again); its validity is the setting controller's business again
+		if len(sets) > 0 {
+			old := sets[r.Intn(len(sets))]
+			cpu := ovCPUs[r.Intn(len(ovCPUs))]
+			w.S.Remove(simapi.KindSetting, ns, old.Name)
+			n := &v1.ExtendedDaemonsetSetting{ObjectMeta: metav1.ObjectMeta{Namespace: ns, Name: old.Name, CreationTimestamp: metav1.NewTime(w.Now())}}
+			n.Spec = *old.Spec.DeepCopy()
+			if len(n.Spec.Containers) > 0 {
+				n.Spec.Containers[0].Resources = ovRes(cpu)
+			}
+			if r.Intn(2) == 0 {
+				n.Spec.NodeSelector = metav1.LabelSelector{MatchLabels: ovSelectors[r.Intn(len(ovSelectors))]}
+			}
+			w.S.Inject(n)
+			w.tracef("user: delete setting %s/%s and re-create it under the same name: selector=%v cpu=%s", ns, old.Name, n.Spec.NodeSelector.MatchLabels, cpu)
+			w.Reconcile("setting", ns, old.Name)
+		}
 	case 0:
 		if len(nodes) > 0 {
 			w.setOverride(r, nodes[r.Intn(len(nodes))], ns, eds)
